@@ -204,7 +204,7 @@ func (s *svc) wsQ(m *MsgQ) (*Reply, error) {
 	case "fail":
 		return nil, errors.New("HE[node-fails]")
 	case "panic":
-		panic("HP[node-panics]")
+		panic(pStruct{"HP[node-panics]"})
 	case "bad":
 		return &Reply{66, m.S, int64(i), m.B, m.D}, nil
 	}
